@@ -103,7 +103,7 @@ def expected(d: dict):
 
 def gen_design(rng, i: int) -> dict | None:
     focus = {'p_bg': 0.0, 'p_custom': 0.2, 'p_pam': 0.5, 'p_gtf': 1.0, 'p_table': 0.1, 'n_targetons': rng.choice([1, 1, 2]),
-             'n_exons': rng.choice([1, 2, 3]), 'exon_lens': [12, 17, 21, 30, 31, 32, 45], 'cds_mut': ['snv', 'ala'], 'non_cds_mut': ['snv', '1del'],
+             'n_exons': rng.choice([1, 2, 3, 3]), 'exon_lens': [12, 17, 20, 22, 31, 32, 43, 45], 'cds_mut': ['snv', 'ala'], 'non_cds_mut': ['snv', '1del'],
              'allow_short_cds': True, 'allow_junction_pam': False, 'p_softmask': 0.1, 't_min': 40, 't_max': 90}
     d = gen.gen_sge(rng, focus)
     d['extra_contigs'] = {}
@@ -138,7 +138,8 @@ def gen_design(rng, i: int) -> dict | None:
         return True
     t0 = rng.choice(d['targetons'])
     # the variant under study: starts inside a targeton
-    kinds = ['syn', 'aa', 'aa', 'non', 'stopstop', 'mnv', 'inframe_indel', 'fs_indel', 'fs_indel', 'intron_into_exon', 'nc_snv', 'nc_indel', 'pam_on_bg']
+    kinds = ['syn', 'aa', 'aa', 'non', 'stopstop', 'mnv', 'inframe_indel', 'fs_indel', 'fs_indel', 'intron_into_exon', 'nc_snv', 'nc_indel', 'pam_on_bg',
+             'junction_aa', 'junction_syn']
     kind = kinds[i % len(kinds)]
     coding_pos = [p for p in range(t0['ref_start'] + 1, t0['ref_end'] - 7) if inex(p) and fr.codon_positions(p) and p not in pam_pos]
     nonc_pos = [p for p in range(t0['ref_start'] + 1, t0['ref_end'] - 7) if not any(inex(q) for q in range(p - 2, p + 8)) and p not in pam_pos]
@@ -146,8 +147,8 @@ def gen_design(rng, i: int) -> dict | None:
     rng.shuffle(nonc_pos)
     comp = (lambda x: x) if d['strand'] == '+' else (lambda x: common.COMP[x])
 
-    def snv_of(want):
-        for p in coding_pos:
+    def snv_of(want, cands=None):
+        for p in (cands if cands is not None else coding_pos):
             cp = fr.codon_positions(p)
             c1 = ''.join(comp(U[q - 1]) for q in cp)
             for alt in rng.sample('ACGT', 4):
@@ -173,6 +174,26 @@ def gen_design(rng, i: int) -> dict | None:
                 cp = set(fr.codon_positions(p))
                 d['pam'] = [e for e in d['pam'] if e['pos'] not in cp]
                 d['pam'].append({'pos': p, 'ref': U[p - 1], 'alt': rng.choice([c for c in 'ACGT' if c not in (U[p - 1], alt)]), 'sgrna': t0['sgrna'][0]})
+    elif kind in ('junction_aa', 'junction_syn'):
+        # a codon split by an exon junction, the variant in its half with the higher coordinate, and an unrelated indel in the
+        # intron between the two halves (the lifted positions of the three bases are then not contiguous)
+        jpos = [p for p in range(t0['ref_start'] + 1, t0['ref_end'] - 1) if inex(p) and fr.codon_positions(p) and p not in pam_pos
+                and max(fr.codon_positions(p)) - min(fr.codon_positions(p)) > 2 and p > min(fr.codon_positions(p)) + 2]
+        rng.shuffle(jpos)
+        x = snv_of('aa' if kind == 'junction_aa' else 'syn', jpos) or (snv_of('non', jpos) if kind == 'junction_aa' else None)
+        if x:
+            p, alt = x
+            cp = sorted(fr.codon_positions(p))
+            gap = [q for q in range(cp[0] + 4, cp[-1] - 6) if not any(inex(y) for y in range(q - 2, q + 6)) and q not in pam_pos
+                   and not (set(range(q - 1, q + 6)) & bounds)]
+            ok = add({'pos': p, 'ref': U[p - 1], 'alts': [alt]}, [p])
+            if ok and gap:
+                q = rng.choice(gap)
+                ln = rng.randint(1, 3)
+                if rng.random() < 0.5:
+                    add({'pos': q, 'ref': U[q - 1], 'alts': [U[q - 1] + gen.rand_dna(rng, ln)]}, [q, q + 1])
+                else:
+                    add({'pos': q, 'ref': U[q - 1:q + ln], 'alts': [U[q - 1]]}, list(range(q, q + ln + 1)))
     elif kind == 'mnv':
         for p in coding_pos:
             if all(inex(q) and q not in pam_pos and q not in bounds for q in (p, p + 1, p + 2)):
